@@ -64,9 +64,17 @@ def build(name, position):
 def run(tier):
     rep = Report("C11", "exploration", tier)
     names = [(n, "keyword") for n in KEYWORDS] + [(n, "style") for n in STYLES] + [(n, "control") for n in CONTROLS]
+    # keywords written in another case style: they become keywords only after the snake_case / CamelCase
+    # conversion the generator applies at that position
+    variants = []
+    for k in KEYWORDS:
+        forms = [k.capitalize(), "_" + k] if tier == "quick" else [k.capitalize(), k.upper(), "_" + k, k + "_", k[0].upper() + k[1:] + "X"[:0]]
+        for f in forms:
+            if f != k and f not in KEYWORDS and (f, "keyword_variant") not in variants:
+                variants.append((f, "keyword_variant"))
     mods = []
-    for name, klass in names:
-        for pos in POSITIONS:
+    for name, klass in names + variants:
+        for pos in (POSITIONS if klass != "keyword_variant" else (["variable", "input_field", "response_field"] if tier == "quick" else POSITIONS)):
             if pos == "enum_value" and name in ("true", "false", "null"):
                 continue  # not GraphQL enum values
             if name.startswith("__") and pos in ("response_field", "input_field", "oneof_member", "enum_value"):
@@ -136,7 +144,8 @@ def run(tier):
     cov = {
         "evaluations": len(mods) + len(reqs), "distinct_nontrivial": sum(1 for m in mods if m["class"] != "control"),
         "rule": "one generated module per (name, position): %d keywords (strict, reserved and weak, editions 2015-2024), %d case "
-                "styles, %d non-keyword controls x 6 positions (minus combinations GraphQL itself forbids); every module is "
+                "styles, %d non-keyword controls x 6 positions (minus combinations GraphQL itself forbids), plus every keyword in "
+                "other case styles (Capitalised, _leading; thorough also UPPER and trailing_) at the positions that snake_case it; every module is "
                 "compiled and one value is sent through the named position; non-trivial = keyword or style names" %
                 (len(KEYWORDS), len(STYLES), len(CONTROLS)),
         "modules": len(mods), "distinct_outcomes": outcomes, "exhaustive": True,
